@@ -34,6 +34,11 @@ pub struct PeerSpec {
     /// advance_frame_with_wait
     #[serde(default)]
     pub wait_timeout_ms: Option<u64>,
+    /// how the application hands over its local inputs: 0 = once per player in handle order,
+    /// 1 = in descending handle order, 2 = twice (a wrong value first; the documentation says the
+    /// later call overwrites the earlier one)
+    #[serde(default)]
+    pub input_style: u8,
 }
 
 impl PeerSpec {
@@ -53,6 +58,7 @@ impl PeerSpec {
             drain: true,
             poll_only: false,
             wait_timeout_ms: None,
+            input_style: 0,
         }
     }
 }
@@ -291,6 +297,7 @@ impl Scenario {
         f.push(format!("poll-only-peer={}", self.peers.iter().any(|p| p.poll_only)));
         f.push(format!("polls-between-ticks={}", self.extra_polls || self.script.iter().any(|i| i.action == Action::Poll)));
         f.push(format!("no-checksum-game={}", !self.no_checksum.is_empty()));
+        f.push(format!("input-style={}", self.peers.iter().map(|p| p.input_style).max().unwrap_or(0)));
         f.push(format!("diverging-game={}", self.diverge.is_some()));
         f.push(format!("handshake-phase={}", self.handshake_phase));
         f.push(format!("fps={}", if self.fps == 60 { "60" } else { "other" }));
